@@ -333,6 +333,11 @@ def check_batch(ctx, batch, kind, readers=False):
         rep.count(f'len={len(order)}')
         steps, groups = feed_direct(items, order, parsed)
         views = [('put_sentence', steps)]
+        if i % 5 == 0:
+            import leapclock
+            with leapclock.leaping():      # an hour between any two clock readings: grouping must not depend on elapsed time
+                s5, _g5 = feed_direct(items, order, [NMEASentenceFactory.produce(it.bare) for it in items])
+            views.append(('put_sentence/leaping-clock', s5))
         if readers:
             s2, d2 = feed_iter(items, order)
             s3, d3 = feed_queue(items, order)
@@ -345,7 +350,7 @@ def check_batch(ctx, batch, kind, readers=False):
                 for name, st in views:
                     coarse = [('raise',) if not isinstance(x, list) else x for x in st]
                     mcoarse = [('raise',) if not isinstance(x, list) else x for x in msteps]
-                    if name != 'put_sentence':
+                    if not name.startswith('put_sentence'):
                         mcoarse = [[] if x == ('raise',) else x for x in mcoarse]     # the readers skip such a line
                     if coarse != mcoarse:
                         rep.disagree('H-tbq', {'entry': name, 'tbs': [tb_tok(items[k].tb) for k in order]}, str(msteps), str(st))
